@@ -127,9 +127,12 @@ def conditions(tier):
                                                      BS + 'a$', BS + 'begin{E}x', 'a' + BS + 'end{E}', BS + 'c*')]))
         cuts = (33, 36, 37, 92, 93, 123, 126) if n >= 3 else (36, 92, 93)
         for tag, pre in ord_partition('s', 0, cuts):
-            conds.append(Cond('tol_%s_eq%d_%s' % (ctx, n, tag), 's: str', ['len(s) == %d' % n, pre],
-                              'body_tol(s, %r)' % ctx, timeout=T * (1 if n < 4 else 4), cost=5,
-                              twin=(tag not in ('p_eq37',))))
+            # length 3: the second character is split once more (disjoint, covering) to balance the 16 processes
+            for tag2, pre2 in ([('', None)] if n < 3 else [('_lo', 'ord(s[1]) < 92'), ('_hi', 'ord(s[1]) >= 92')]):
+                conds.append(Cond('tol_%s_eq%d_%s%s' % (ctx, n, tag, tag2), 's: str',
+                                  ['len(s) == %d' % n, pre] + ([pre2] if pre2 else []),
+                                  'body_tol(s, %r)' % ctx, timeout=T * (1 if n < 4 else 4), cost=5,
+                                  twin=(tag not in ('p_eq37',))))
     for ctx, n in ([('S', 2), ('D', 2)] if quick else [('S', 3), ('SU', 3), ('D', 3)]):
         conds.append(Cond('entry_%s_le%d' % (ctx, n), 's: str', ['len(s) <= %d' % n], 'body_tol_entry(s, %r)' % ctx,
                           timeout=T, smoke=[dict(s=x) for x in ('', '}', 'a}', BS + ')', '{', 'ab' + BS, '$')]))
